@@ -1168,6 +1168,17 @@ def integer_bounds_oracle(ctx):
         for kind, (a, b) in {"float": (float(lo), float(hi)), "python-int": (lo, hi), "int-array": (jnp.asarray(lo), jnp.asarray(hi))}.items():
             inv = AutoregressiveBisectionInverter(lower=a, upper=b, tol=1e-9, max_iter=200)
             roots[kind] = np.asarray(inv(bij, y), dtype=float)
+        # the target given in float32 while the search runs in float64 (data loaded from a float32 file): the root of the equation for
+        # THAT target, to the requested tolerance (seeded change C10d rounded the probe vector to the target's precision)
+        y32 = jnp.asarray(np.asarray(y), dtype=jnp.float32)
+        x_of_y32 = np.asarray(bij.inverse(jnp.asarray(np.asarray(y32, dtype=float))), dtype=float)
+        r32 = np.asarray(AutoregressiveBisectionInverter(lower=float(lo), upper=float(hi), tol=1e-9, max_iter=200)(bij, y32), dtype=float)
+        u.count((rep, "float32-target", lo, hi, x.tolist()), tag="float32-target")
+        if not np.allclose(r32, x_of_y32, rtol=0, atol=2e-8 * max(1.0, float(np.max(np.abs(x_of_y32))))):
+            ctx.violation(sig="integer-bounds:float32-target", what=f"AutoregressiveBisectionInverter(tol=1e-9) with a float32 target y = {np.asarray(y32).tolist()}: returns {r32.tolist()} "
+                          f"but the preimage of that y is {x_of_y32.tolist()} (off by {float(np.max(np.abs(r32 - x_of_y32))):.3g})",
+                          case=dict(unit="integer-bounds", kind="float32-target", lower=lo, upper=hi, y=np.asarray(y32, dtype=float).tolist(), map="TriangularAffine" if rep % 2 else "Affine"),
+                          found_input=True, unit=u.name, expected=x_of_y32.tolist(), observed=r32.tolist(), broken="float32 target / C10_search_within_tol")
         for kind in ("python-int", "int-array"):
             u.count((rep, kind, lo, hi, x.tolist()), tag=kind)
             if not (np.allclose(roots[kind], roots["float"], rtol=0, atol=1e-12) and np.allclose(roots[kind], x, rtol=0, atol=1e-6)):
